@@ -57,6 +57,13 @@ def col_lists(tier):
         yield from itertools.permutations(COLS, n)
 
 
+def scen_project_unsched():
+    """task a fits in 'plan' and is out of the window (unscheduled) in 's2' only"""
+    T = lambda i, m, r="r1", **kw: {"id": i, "effort": m, "alloc": [r], **kw}  # noqa: E731
+    return {"scenarios": [("plan", [("s2", [])])], "resources": [{"id": "r1", "rate": 50.0}, {"id": "r2", "rate": 20.0}],
+            "tasks": [T("a", 300, scen=[("s2", "start 2025-06-02-09:00")]), {"id": "g", "children": [T("b", 120, "r2", deps=["a"]), T("c", 60, "r2")]}]}
+
+
 def scen_universe(tier):
     """a two-scenario project (scenario-specific effort) with one report per scenario, generated in either order"""
     cols_list = [("id", "cost"), ("id", "start", "end", "cost"), ("cost",), ("id", "end")]
@@ -64,6 +71,7 @@ def scen_universe(tier):
         for order in (("plan", "s2"), ("s2", "plan")):
             for fmts in (("json", "csv"), ("csv",)):
                 yield {"pi": "scen", "cols": cols, "rf": "%Y-%m-%d %H:%M", "pf": None, "leaf": None, "fmts": fmts, "order": order}
+                yield {"pi": "scen", "var": "unsched", "cols": cols, "rf": "%Y-%m-%d %H:%M", "pf": None, "leaf": None, "fmts": fmts, "order": order}
 
 
 def universe(tier):
@@ -89,7 +97,7 @@ def scen_project():
 
 def to_spec(it):
     if it["pi"] == "scen":
-        spec = scen_project()
+        spec = scen_project() if it.get("var") != "unsched" else scen_project_unsched()
         reps = []
         for sid in it["order"]:
             reps.append(f'taskreport rep_{sid} "rep_{sid}" {{\n  formats ' + ", ".join(it["fmts"]) + "\n  columns " + ", ".join(it["cols"]) +
